@@ -441,6 +441,35 @@ Theorem C09_wf_wfm : forall subject manifest st, wf st -> wfm subject manifest s
 Proof. exact wf_wfm_final. Qed.
 Print Assumptions C09_wf_wfm.
 
+(* The Delete theorems without a premise on the state: in EVERY state of every history of the
+   persistence layer (pushes, tags, deletes, complete/cancelled/blocked GCs, saves, reloads,
+   failed pushes, Deletes of plain leaves by the blob descriptor), Delete x of a stored x with
+   AutoGC on returns Ok and removes exactly [Gone] from storage and graph and x's tags from
+   the index, for every iteration order, with order-independent outcome; and a stored tagged
+   descriptor survives every Delete of another descriptor (AutoGC on or off) *)
+Theorem C09_delete_in_histories :
+  forall succ subject manifest,
+  acyclic succ -> subject_listed succ subject ->
+  forall kl ops, Forall (plain_alt subject manifest) ops ->
+  let st := mem (fold_left (fun p o => fst (pstep succ subject manifest cfg_fixed kl p o)) ops pinit) in
+  (forall x ord, autogc st = true -> In x (blobs st) -> reorders ord ->
+     exists st',
+       delete succ subject manifest cfg_fixed ord st x = (st', Ok) /\
+       (forall y, In y (blobs st') <-> In y (blobs st) /\ ~ Gone succ subject manifest st x y) /\
+       (forall y, In y (gnodes st') <-> In y (gnodes st) /\ ~ Gone succ subject manifest st x y) /\
+       (forall t n, In (RTag t, n) (idx st') <-> In (RTag t, n) (idx st) /\ n <> x) /\
+       (forall r, ~ In (r, x) (idx st'))) /\
+  (forall n t x ord, In (RTag t, n) (idx st) -> In n (blobs st) -> reorders ord -> x <> n ->
+     let st' := fst (delete succ subject manifest cfg_fixed ord st x) in
+     In n (blobs st') /\ In (RTag t, n) (idx st')) /\
+  (forall x o1 o2, autogc st = true -> In x (blobs st) -> reorders o1 -> reorders o2 ->
+     let a := fst (delete succ subject manifest cfg_fixed o1 st x) in
+     let b := fst (delete succ subject manifest cfg_fixed o2 st x) in
+     (forall y, In y (blobs a) <-> In y (blobs b)) /\ (forall y, In y (gnodes a) <-> In y (gnodes b)) /\
+     (forall t n, In (RTag t, n) (idx a) <-> In (RTag t, n) (idx b))).
+Proof. exact reachable_delete_final. Qed.
+Print Assumptions C09_delete_in_histories.
+
 (* Delete of the layer 0 with the blob descriptor leaves the graph node 0 without content
    (the state is not [wf], it is [wfm]); GC removes the stale node; a second such Delete is
    ErrNotFound.  C09_delete_after_alt: in that state Delete of the image 1 (AutoGC on)
